@@ -475,7 +475,7 @@ SETOP_TAILS = [[]] + [list(x) for r in (1, 2, 3) for x in itertools.permutations
 def setop_cases():
     for cls in CTXS:
         for op in SETOPS:
-            for optail in (0, 1, 2):
+            for optail in (0, 1, 2, 3, 4):
                 for tail in SETOP_TAILS:
                     yield {"family": "setop", "cls": cls, "op": op, "optail": optail, "tail": tail}
 
@@ -484,10 +484,13 @@ def setop_program(case, tail):
     src = {"T": ["tbl", "t", None, None], "U": ["tbl", "u", None, None]}
     A = ["col", "T", "a"]
     steps = [["from_", [["src", "T"]]], ["select", [A]]]
-    if case["optail"] >= 1:
+    # clauses of the first operand: 1 ORDER BY, 2 ORDER BY + LIMIT, 3 OFFSET only, 4 LIMIT only
+    if case["optail"] in (1, 2):
         steps.append(["orderby", [A]])
-    if case["optail"] >= 2:
+    if case["optail"] in (2, 4):
         steps.append(["limit", [["raw", 5]]])
+    if case["optail"] == 3:
+        steps.append(["offset", [["raw", 4]]])
     other = {"cls": "inherit", "sources": {}, "steps": [["from_", [["src", "U"]]], ["select", [["col", "U", "a"]]]]}
     steps.append([case["op"], [["q", other]]])
     for m in tail:
@@ -577,7 +580,7 @@ def check_case(case):
 def valid_case(case):
     try:
         if case.get("family") == "setop":
-            return case["cls"] in CTXS and case["op"] in SETOPS and case["optail"] in (0, 1, 2) and case["tail"] in SETOP_TAILS
+            return case["cls"] in CTXS and case["op"] in SETOPS and case["optail"] in (0, 1, 2, 3, 4) and case["tail"] in SETOP_TAILS
         p = case["program"]
         n = len(p["steps"])
         if '["tbl", null' in json.dumps(p) or '"tbl", ""' in json.dumps(p):
